@@ -88,8 +88,10 @@ func (h *hashRanges) removeElement(elHash uint64) {
 		rng = h.getBottomRange(rng, elHash)
 		rng.elements--
 	}
-	parent := rng.parent
-	if parent.elements <= h.compareThreshold && parent != h.topRange {
+	// merge every divided ancestor which doesn't exceed the threshold anymore,
+	// so the division depends only on the current elements
+	for rng.parent != nil && rng.parent != h.topRange && rng.parent.elements <= h.compareThreshold {
+		parent := rng.parent
 		ranges := genTupleRanges(parent.from, parent.to, h.divideFactor)
 		for _, tuple := range ranges {
 			child := h.ranges[tuple]
@@ -97,10 +99,9 @@ func (h *hashRanges) removeElement(elHash uint64) {
 			delete(h.dirty, child)
 		}
 		parent.isDivided = false
-		h.dirty[parent] = struct{}{}
-	} else {
-		h.dirty[rng] = struct{}{}
+		rng = parent
 	}
+	h.dirty[rng] = struct{}{}
 }
 
 func (h *hashRanges) recalculateHashes() {
